@@ -5,17 +5,33 @@ model (`Fjord.fjordIndex`, `descentDir`).  Oracle on the implementation: the fjo
 independently computed BFS distance; following the velocity served by the real
 `vps.gridforce.Forcing.fish_velocity` *as the tracker uses it* (X += u, Y += v) lowers the index by
 one per cell, never enters land or leaves the grid and ends on the ocean with zero velocity."""
-import importlib, itertools
+import importlib, itertools, math, os, shutil, tempfile
 from collections import deque
+from fractions import Fraction
 import numpy as np
 from .common import Driver, I
-from .stubs import Obj
+from .stubs import Obj, real_state
+from . import romsfile
 
 RULE = ("land/sea masks: exhaustively all masks of a 3x4 grid (quick: ocean distance 1..2; thorough: 1..3), random masks up to "
         "14x14 with land fractions 0.1..0.6, fjord-like channels and closed basins, ocean distances 1..4; random depth-first mazes and serpentines of one-cell-wide corridors up to 13x13 (+ open-sea strip) whose sea paths exceed rows+columns; every sea cell as start; sub-grid offsets i0 in {0,1,3}, j0 in {0,1,2}. "
+        "Added in the coverage review: ocean distance 0 and one-cell-thin grids (1xN, Nx1, 1x1); a second Forcing per mask whose grid has "
+        "non-uniform dx (dx[0,0] in {160, 800, 4000} m, other cells different) and an ocean distance in km that is not a whole number of cells "
+        "((d + delta) cells, delta in {-0.45,-0.2,0,0.3,0.45}, no ties); positions anywhere inside a cell (centre +- up to 0.49) in the lookup; "
+        "multi-step paths stepped as the tracker does (X += u*dt/dx with dt/dx giving 0.105, 0.3 or 0.45 cells per step) from off-centre "
+        "starts in every reachable sea cell, in picture and in tracker orientation; the real IBM.update_ibm under the real LADiM State with one "
+        "fish per cell (X != Y) against the real Forcing; Forcing.velocity (the tracker's entry point); Forcing objects built by the real "
+        "constructors from synthetic ROMS files with sub-grids, non-uniform pm and ocean_distance given or left at its default. "
         "Non-trivial: mask with at least one land and one sea cell.")
 ASSUMPTIONS = ["scipy generic_filter / binary_dilation are modelled by their documented semantics and checked against the real calls here"]
 SITE = "ladim_plugins/vps/gridforce.py::_compute_fish_velocity"
+SITE_LOOKUP = "ladim_plugins/vps/gridforce.py::Forcing.fish_velocity"
+SITE_VEL = "ladim_plugins/vps/gridforce.py::Forcing.velocity"
+SITE_CELLS = "ladim_plugins/vps/gridforce.py::Forcing._ocean_dist_cells"
+SITE_INIT = "ladim_plugins/vps/gridforce.py::Forcing.__init__"
+SITE_FI = "ladim_plugins/vps/ibm.py::fjord_index"
+SITE_IBM = "ladim_plugins/vps/ibm.py::IBM.update_ibm"
+SPEED = 0.14
 
 
 def bfs_reference(land, d):
@@ -28,14 +44,11 @@ def bfs_reference(land, d):
         b = a.copy()
         b[1:, :] |= a[:-1, :]; b[:-1, :] |= a[1:, :]; b[:, 1:] |= a[:, :-1]; b[:, :-1] |= a[:, 1:]
         return b
-    if it < 1:
-        while True:
-            n2 = dil(not_ocean)
-            if (n2 == not_ocean).all(): break
-            not_ocean = n2
-    else:
-        for _ in range(it):
-            not_ocean = dil(not_ocean)
+    # open ocean = sea cells at taxicab distance >= d from land: d - 1 dilations, none for d <= 1
+    # (this reference used to emulate scipy's "iterations < 1 = until no change", which hid the defect repaired by
+    # the fix: commit 8d30123)
+    for _ in range(max(it, 0)):
+        not_ocean = dil(not_ocean)
     dist = np.full(land.shape, -1, dtype=int)
     dist[land] = -2
     q = deque()
@@ -95,26 +108,132 @@ def gen_maze(rng, d):
     return m
 
 
-def check_mask(ctx, drv, pend, V, G, land, d, exhaustive=False):
-    cs = dict(land=land.tolist(), ocean_dist=d)
-    ctx.case(key=(land.tobytes(), land.shape, d), nontrivial=bool(land.any() and not land.all()))
-    fi = V.fjord_index(land, d)
-    ref = bfs_reference(land, d)
-    ctx.oracle(np.array_equal(fi, ref), "C12.fjord_index.not_shortest_path", "ladim_plugins/vps/ibm.py::fjord_index",
-               "fjord index differs from the BFS distance to the open ocean", dict(cs, got=fi.tolist(), want=ref.tolist()))
-    u, v = V.descent(fi)
-    # velocity as served by the forcing object
-    F = object.__new__(G.Forcing)
-    F._fish_u = None; F._fish_v = None; F.fish_swim_speed = 0.14; F.use_currents = False
-    F.ocean_distance = d * 0.8       # km; dx = 800 m  -> d cells
-    # the sub-grid offset of the LADiM grid (i0 = j0 = 1 for the real ROMS grid; any offset must be transparent)
-    i0 = ctx.rng.choice([0, 1, 1, 3]); j0 = ctx.rng.choice([0, 1, 1, 2])
-    F._grid = Obj(M=1 - land, i0=i0, j0=j0, dx=np.full(land.shape, 800.0))
+def gen_thin(rng):
+    """one-cell-thin grids (a single row, a single column, a single cell)"""
+    k = rng.choice([1, 1, 2, 3, 5, 8, 12])
+    p = rng.choice([0.0, 0.15, 0.3])
+    m = np.array([[1 if rng.random() < p else 0 for _ in range(k)]])
+    if rng.random() < 0.3 and k > 2:
+        m[0, rng.randrange(k)] = 1
+    return m.T.copy() if rng.random() < 0.5 else m
+
+
+def land_distance(land):
+    """taxicab distance of every cell to the nearest land cell (multi-source BFS over the whole grid; land itself 0;
+    a grid without land: a number larger than any ocean distance used here)"""
+    land = np.asarray(land, bool)
     r, c = land.shape
-    YY, XX = np.meshgrid(np.arange(r, dtype=float), np.arange(c, dtype=float), indexing="ij")
-    fu, fv = F.fish_velocity(XX.ravel() + i0, YY.ravel() + j0)
-    fu = np.sign(fu).reshape(r, c).astype(int); fv = np.sign(fv).reshape(r, c).astype(int)
-    cs = dict(cs, i0=i0, j0=j0)
+    BIG = 10 ** 6
+    dist = np.full(land.shape, BIG, dtype=int)
+    q = deque()
+    for i in range(r):
+        for j in range(c):
+            if land[i, j]:
+                dist[i, j] = 0; q.append((i, j))
+    while q:
+        i, j = q.popleft()
+        for di, dj in ((1, 0), (-1, 0), (0, 1), (0, -1)):
+            a, b = i + di, j + dj
+            if 0 <= a < r and 0 <= b < c and dist[a, b] == BIG:
+                dist[a, b] = dist[i, j] + 1; q.append((a, b))
+    return dist
+
+
+def check_ocean_region(ctx, fi, land, d, cs):
+    """the open-ocean region by its definition in the statement, without reference to how the implementation obtains it
+    (no emulation of scipy's `iterations` argument): a sea cell strictly farther than `d` cells from land IS ocean
+    (index 0) and a sea cell closer than `d` cells to land is NOT.  Cells at exactly `d` are not judged here (the
+    repository's unit test pins them as ocean; for d >= 2 they are covered by C12.fjord_index.not_shortest_path)."""
+    dl = land_distance(land)
+    sea = ~np.asarray(land, bool)
+    far = sea & (dl > d) & (fi != 0)
+    if far.any():
+        i, j = [int(x[0]) for x in np.nonzero(far)]
+        ctx.oracle(False, "C12.fjord_index.far_cell_not_ocean", SITE_FI,
+                   "sea cell (row %d, col %d) is %d cells from the nearest land (> ocean distance %d) but its fjord index is %d, not 0"
+                   % (i, j, dl[i, j], d, fi[i, j]), dict(cs, cell=[i, j], got=fi.tolist()))
+    near = sea & (dl < d) & (fi == 0)
+    if near.any():
+        i, j = [int(x[0]) for x in np.nonzero(near)]
+        ctx.oracle(False, "C12.fjord_index.near_cell_is_ocean", SITE_FI,
+                   "sea cell (row %d, col %d) is only %d cells from land (< ocean distance %d) but counts as open ocean"
+                   % (i, j, dl[i, j], d), dict(cs, cell=[i, j], got=fi.tolist()))
+
+
+def new_forcing(G, land, i0, j0, km, dx, speed=SPEED):
+    F = object.__new__(G.Forcing)
+    F._fish_u = None; F._fish_v = None; F.fish_swim_speed = speed; F.use_currents = False
+    F.ocean_distance = km
+    F._grid = Obj(M=1 - land, i0=i0, j0=j0, dx=dx)
+    return F
+
+
+def nearest_cells(km, dx00):
+    """the whole number of cells nearest to `km` kilometres on cells of `dx00` metres, in exact rational arithmetic;
+    None on an exact tie (not generated)"""
+    q = Fraction(km) / (Fraction(dx00) / 1000)
+    lo = math.floor(q)
+    if q - lo == Fraction(1, 2):
+        return None
+    return lo if q - lo < Fraction(1, 2) else lo + 1
+
+
+def follow_paths(F, fi, i0, j0, k, vsign, offs):
+    """step every fish as the tracker does, X += u*k, Y += vsign*v*k (k = dt/dx in s/m; vsign = +1: grid coordinates
+    as the tracker uses them, -1: the picture orientation of ibm.descent), starting off-centre in every sea cell with a
+    positive index.  The cell of a position is the nearest grid point.  Returns {start cell: what went wrong}: each change
+    of cell must lower the index by exactly one, never enter land / an unknown basin or leave the grid, the velocity
+    must not vanish before the ocean and must vanish on the ocean, which must be reached."""
+    r, c = fi.shape
+    rows, cols = np.nonzero(fi > 0)
+    nf = len(rows)
+    bad = {}
+    if nf == 0:
+        return bad
+    x = cols + float(i0) + offs[0][:nf]; y = rows + float(j0) + offs[1][:nf]
+    cur_r = rows.copy(); cur_c = cols.copy(); cur_n = fi[rows, cols].astype(int)
+    active = np.ones(nf, bool)
+
+    def fail(mask, msg):
+        for f in np.nonzero(mask)[0]:
+            bad[(int(rows[f]), int(cols[f]))] = msg(f)
+        active[mask] = False
+
+    step = abs(k) * SPEED
+    # the budget only bounds the loop: twice the number of steps the longest path needs at the nominal speed
+    budget = 2 * int(math.ceil((int(cur_n.max()) + 2) / step)) + 10
+    for _ in range(budget):
+        if not active.any():
+            break
+        u, v = F.fish_velocity(x.copy(), y.copy())
+        u = np.asarray(u, float); v = np.asarray(v, float)
+        zero = (u == 0) & (v == 0)
+        on_ocean = active & (cur_n == 0)
+        fail(on_ocean & ~zero, lambda f: "velocity (%r, %r) on the ocean cell (row %d, col %d)" % (u[f], v[f], cur_r[f], cur_c[f]))
+        active[on_ocean & zero] = False          # arrived: the fish is retired
+        fail(active & zero, lambda f: "velocity vanishes at index %d in cell (row %d, col %d): the fish is retired before the ocean" % (cur_n[f], cur_r[f], cur_c[f]))
+        x = np.where(active, x + u * k, x); y = np.where(active, y + vsign * v * k, y)
+        with np.errstate(all="ignore"):
+            ncol = np.round(x - i0); nrow = np.round(y - j0)
+        inside = np.isfinite(ncol) & np.isfinite(nrow) & (ncol >= 0) & (ncol < c) & (nrow >= 0) & (nrow < r)
+        fail(active & ~inside, lambda f: "leaves the grid from cell (row %d, col %d), index %d, at X-i0=%r, Y-j0=%r" % (cur_r[f], cur_c[f], cur_n[f], x[f] - i0, y[f] - j0))
+        nc = np.where(inside, ncol, 0).astype(int); nr = np.where(inside, nrow, 0).astype(int)
+        changed = active & ((nc != cur_c) | (nr != cur_r))
+        newn = fi[nr, nc]
+        fail(changed & (newn != cur_n - 1),
+             lambda f: "from cell (row %d, col %d), index %d, %s" % (cur_r[f], cur_c[f], cur_n[f],
+                       "enters land at (row %d, col %d)" % (nr[f], nc[f]) if newn[f] == -2 else
+                       "enters the unknown basin cell (row %d, col %d)" % (nr[f], nc[f]) if newn[f] == -1 else
+                       "moves to cell (row %d, col %d) with index %d" % (nr[f], nc[f], newn[f])))
+        ok = changed & active
+        cur_r[ok] = nr[ok]; cur_c[ok] = nc[ok]; cur_n[ok] = newn[ok]
+    fail(active.copy(), lambda f: "does not reach the ocean within %d steps (at cell (row %d, col %d), index %d)" % (budget, cur_r[f], cur_c[f], cur_n[f]))
+    return bad
+
+
+def judge_cells(ctx, fi, fu, fv, cs):
+    """one step from every cell centre (fu, fv: signs of the served velocity)"""
+    r, c = fi.shape
     for i in range(r):
         for j in range(c):
             n = fi[i, j]
@@ -136,9 +255,217 @@ def check_mask(ctx, drv, pend, V, G, land, d, exhaustive=False):
             ok, what = judge(i + fv[i, j], j + fu[i, j])
             ctx.oracle(ok, "C12.follow.not_descending", SITE,
                        "cell (row %d, col %d), index %d: velocity (u=%d, v=%d) %s" % (i, j, n, fu[i, j], fv[i, j], what), dict(cs, cell=[i, j]))
+
+
+WITHIN = [(0.49, 0.0), (-0.49, 0.0), (0.0, 0.49), (0.0, -0.49), (0.49, 0.49), (-0.49, -0.49), (0.3, -0.3), (-0.25, 0.4), (0.125, 0.0), (0.0, -0.375)]
+
+
+def served_checks(ctx, V, F, land, fi, u, v, fu_raw, fv_raw, i0, j0, cs, deep):
+    """oracles on the field as served by a Forcing object (stub grid or real grid) that hold regardless of F-C12a, and
+    the multi-step paths"""
+    r, c = fi.shape
+    YY, XX = np.meshgrid(np.arange(r, dtype=float), np.arange(c, dtype=float), indexing="ij")
+    X0 = XX.ravel() + i0; Y0 = YY.ravel() + j0
+    # ---- the velocity served at a cell centre is the descent direction of the fjord index of that cell times the swimming
+    #      speed (anchor: "u, v looked up at [round(Y)-j0, round(X)-i0]"); u * speed is the operation of the
+    #      implementation, so the comparison is exact.  This ties the served field to fjord_index/descent, which are what the
+    #      Lean model is compared with (also on land and in unknown basins).
+    speed = F.fish_swim_speed
+    ctx.oracle(bool(np.isfinite(fu_raw).all() and np.isfinite(fv_raw).all()), "C12.lookup.not_finite", SITE, "served velocity not finite",
+               dict(cs, u=fu_raw.tolist(), v=fv_raw.tolist()))
+    ctx.oracle(np.array_equal(fu_raw, np.asarray(u) * speed) and np.array_equal(fv_raw, np.asarray(v) * speed),
+               "C12.lookup.not_descent_of_index", SITE,
+               "velocity served at the cell centres is not descent(fjord_index(land, d)) * fish_swim_speed",
+               dict(cs, u=fu_raw.tolist(), v=fv_raw.tolist(), want_u=(np.asarray(u) * speed).tolist(), want_v=(np.asarray(v) * speed).tolist()))
+    # ---- any position inside a cell (nearest grid point) is served the velocity of that cell
+    offs = ctx.rng.sample(WITHIN, 2) + [(ctx.rng.uniform(-0.49, 0.49), ctx.rng.uniform(-0.49, 0.49))]
+    for ox, oy in offs:
+        wu, wv = F.fish_velocity(X0 + ox, Y0 + oy)
+        ok = np.array_equal(np.asarray(wu, float).reshape(r, c), fu_raw) and np.array_equal(np.asarray(wv, float).reshape(r, c), fv_raw)
+        if not ok:
+            dif = (np.asarray(wu, float).reshape(r, c) != fu_raw) | (np.asarray(wv, float).reshape(r, c) != fv_raw)
+            i, j = [int(t[0]) for t in np.nonzero(dif)]
+            ctx.oracle(False, "C12.lookup.not_constant_within_cell", SITE_LOOKUP,
+                       "position X-i0=%r, Y-j0=%r lies in cell (row %d, col %d) but is served (%r, %r) instead of the cell's (%r, %r)"
+                       % (j + ox, i + oy, i, j, np.asarray(wu).reshape(r, c)[i, j], np.asarray(wv).reshape(r, c)[i, j], fu_raw[i, j], fv_raw[i, j]),
+                       dict(cs, offset=[ox, oy], cell=[i, j]))
+        ctx.branch("lookup_off_centre")
+    # ---- the lookup neither moves the fish nor changes the grid, and is repeatable
+    Xa = X0 + offs[0][0]; Ya = Y0 + offs[0][1]
+    Xk = Xa.copy(); Yk = Ya.copy(); Mk = np.array(F._grid.M, copy=True)
+    a1 = F.fish_velocity(Xa, Ya); a2 = F.fish_velocity(Xa, Ya)
+    ctx.oracle(np.array_equal(Xa, Xk) and np.array_equal(Ya, Yk) and np.array_equal(np.asarray(F._grid.M), Mk), "C12.lookup.mutates_input", SITE_LOOKUP,
+               "fish_velocity changed the positions it was given or the grid mask", dict(cs, offset=list(offs[0])))
+    ctx.oracle(np.array_equal(a1[0], a2[0]) and np.array_equal(a1[1], a2[1]), "C12.lookup.not_repeatable", SITE_LOOKUP,
+               "two identical calls of fish_velocity differ", dict(cs, offset=list(offs[0])))
+    # ---- Forcing.velocity is what the tracker calls: without currents it serves the fish velocity
+    if not F.use_currents:
+        Z = np.full(len(Xa), 1.0)
+        for kw in (dict(), dict(tstep=0.5, method="nearest")):
+            vu, vv = F.velocity(Xa, Ya, Z, **kw)
+            ctx.oracle(np.array_equal(vu, a1[0]) and np.array_equal(vv, a1[1]), "C12.velocity.not_fish_velocity", SITE_VEL,
+                       "Forcing.velocity(X, Y, Z) differs from fish_velocity(X, Y)", dict(cs, offset=list(offs[0]), kwargs=kw))
+        ctx.branch("velocity_entry_point")
+    if not deep:
+        return
+    # ---- multi-step paths with the tracker's update X += u*dt/dx
+    nf = int((fi > 0).sum())
+    if nf:
+        k = ctx.rng.choice([600.0 / 800.0, 0.3 / SPEED, 0.45 / SPEED])
+        if fi.max() > 40:
+            k = 0.45 / SPEED
+        R = np.random.RandomState(ctx.sub_seed())
+        po = (R.uniform(-0.4, 0.4, nf), R.uniform(-0.4, 0.4, nf))
+        if ctx.rng.random() < 0.3:
+            po = (np.zeros(nf), np.zeros(nf))
+        csp = dict(cs, dt_over_dx=k, start_offsets=[po[0].tolist(), po[1].tolist()])
+        for (i, j), what in sorted(follow_paths(F, fi, i0, j0, k, -1.0, po).items()):
+            ctx.oracle(False, "C12.follow.path_not_descending_in_picture_orientation", SITE,
+                       "path from cell (row %d, col %d), index %d, stepping X += u*k, Y -= v*k (k=%r): %s" % (i, j, fi[i, j], k, what), dict(csp, cell=[i, j]))
+        # the property as stated (grid coordinates of the tracker): known finding F-C12a
+        for (i, j), what in sorted(follow_paths(F, fi, i0, j0, k, 1.0, po).items()):
+            ctx.oracle(False, "C12.follow.not_descending", SITE,
+                       "path from cell (row %d, col %d), index %d, stepping X += u*k, Y += v*k (k=%r): %s" % (i, j, fi[i, j], k, what), dict(csp, cell=[i, j]))
+        ctx.branch("paths"); ctx.size("path_cells_per_step", round(k * SPEED, 3))
+    # ---- the real IBM.update_ibm against this Forcing: a fish on the ocean is retired, a fish that still has a way to go is not
+    dt = ctx.rng.choice([600.0, 60.0])
+    ibm = V.IBM(dict(dt=dt, ibm=dict(max_depth=2.0)))
+    R = np.random.RandomState(ctx.sub_seed())
+    ox = R.uniform(-0.45, 0.45, r * c); oy = R.uniform(-0.45, 0.45, r * c)
+    state = real_state(dt=dt, X=X0 + ox, Y=Y0 + oy, Z=np.full(r * c, 1.0), age=np.zeros(r * c))
+    keep = np.random.get_state()
+    try:
+        ibm.update_ibm(Obj(), state, Obj(forcing=F))
+    finally:
+        np.random.set_state(keep)
+    alive = np.asarray(state["alive"]).astype(bool).reshape(r, c)
+    wrong = (fi == 0) & alive
+    if wrong.any():
+        i, j = [int(t[0]) for t in np.nonzero(wrong)]
+        ctx.oracle(False, "C12.retire.ocean_fish_not_retired", SITE_IBM, "fish at X-i0=%r, Y-j0=%r in the ocean cell (row %d, col %d) is still alive after update_ibm"
+                   % (j + ox[i * c + j], i + oy[i * c + j], i, j), dict(cs, cell=[i, j]))
+    wrong = (fi > 0) & ~alive
+    if wrong.any():
+        i, j = [int(t[0]) for t in np.nonzero(wrong)]
+        ctx.oracle(False, "C12.retire.fish_retired_before_ocean", SITE_IBM, "fish at X-i0=%r, Y-j0=%r in cell (row %d, col %d), index %d, is retired by update_ibm before it reached the ocean"
+                   % (j + ox[i * c + j], i + oy[i * c + j], i, j, fi[i, j]), dict(cs, cell=[i, j]))
+    ctx.branch("update_ibm_real_field")
+
+
+def check_mask(ctx, drv, pend, V, G, land, d, exhaustive=False, deep=False):
+    cs = dict(land=land.tolist(), ocean_dist=d)
+    ctx.case(key=(land.tobytes(), land.shape, d), nontrivial=bool(land.any() and not land.all()))
+    land_before = land.copy()
+    fi = V.fjord_index(land, d)
+    ref = bfs_reference(land, d)
+    ctx.oracle(np.array_equal(fi, ref), "C12.fjord_index.not_shortest_path", "ladim_plugins/vps/ibm.py::fjord_index",
+               "fjord index differs from the BFS distance to the open ocean", dict(cs, got=fi.tolist(), want=ref.tolist()))
+    check_ocean_region(ctx, fi, land, d, cs)
+    u, v = V.descent(fi)
+    # velocity as served by the forcing object
+    F = object.__new__(G.Forcing)
+    F._fish_u = None; F._fish_v = None; F.fish_swim_speed = 0.14; F.use_currents = False
+    F.ocean_distance = d * 0.8       # km; dx = 800 m  -> d cells
+    # the sub-grid offset of the LADiM grid (i0 = j0 = 1 for the real ROMS grid; any offset must be transparent)
+    i0 = ctx.rng.choice([0, 1, 1, 3]); j0 = ctx.rng.choice([0, 1, 1, 2])
+    F._grid = Obj(M=1 - land, i0=i0, j0=j0, dx=np.full(land.shape, 800.0))
+    r, c = land.shape
+    YY, XX = np.meshgrid(np.arange(r, dtype=float), np.arange(c, dtype=float), indexing="ij")
+    fu, fv = F.fish_velocity(XX.ravel() + i0, YY.ravel() + j0)
+    fu_raw = np.array(fu, dtype=float).reshape(r, c); fv_raw = np.array(fv, dtype=float).reshape(r, c)
+    fu = np.sign(fu).reshape(r, c).astype(int); fv = np.sign(fv).reshape(r, c).astype(int)
+    cs = dict(cs, i0=i0, j0=j0)
+    judge_cells(ctx, fi, fu, fv, cs)
+    served_checks(ctx, V, F, land, fi, u, v, fu_raw, fv_raw, i0, j0, cs, deep)
+    # ---- a second Forcing on the same mask: non-uniform dx and an ocean distance in km that is not a whole number of cells;
+    #      the configured distance in cells is the nearest whole number (exact rational arithmetic, ties not generated)
+    if deep or ctx.rng.random() < 0.4:
+        dx00 = ctx.rng.choice([160.0, 800.0, 4000.0])
+        delta = ctx.rng.choice([-0.45, -0.2, 0.0, 0.3, 0.45] if d >= 1 else [0.0, 0.2, 0.45])
+        km = (d + delta) * dx00 / 1000
+        R = np.random.RandomState(ctx.sub_seed())
+        dx = dx00 * R.uniform(0.5, 1.5, land.shape); dx[0, 0] = dx00
+        if nearest_cells(km, dx00) == d:
+            i2 = ctx.rng.choice([0, 1, 2, 5]); j2 = ctx.rng.choice([0, 1, 3, 4])
+            F2 = new_forcing(G, land, i2, j2, km, dx)
+            gu, gv = F2.fish_velocity(XX.ravel() + i2, YY.ravel() + j2)
+            gu = np.asarray(gu, float).reshape(r, c); gv = np.asarray(gv, float).reshape(r, c)
+            ctx.oracle(np.array_equal(gu, np.asarray(u) * SPEED) and np.array_equal(gv, np.asarray(v) * SPEED), "C12.ocean_distance.cells_not_nearest", SITE_CELLS,
+                       "ocean_distance=%r km on cells of dx[0,0]=%r m is %r cells, nearest whole number %d, but the served field is not the one of ocean distance %d"
+                       % (km, dx00, km / (dx00 / 1000), d, d), dict(cs, i0=i2, j0=j2, ocean_distance_km=km, dx00=dx00, dx=dx.tolist(), u=gu.tolist(), v=gv.tolist()))
+            ctx.branch("km_not_whole_cells"); ctx.size("delta_cells", delta); ctx.size("dx00", dx00)
+    ctx.oracle(np.array_equal(land, land_before), "C12.fjord_index.mutates_mask", SITE_FI, "the land mask was changed in place", cs)
     if drv.available:
         toks = "%d %d %d %s" % (d, r, c, " ".join(str(int(x)) for x in land.ravel()))
         pend.append((drv.ask("fjord.index", toks), fi, u, v, cs))
+
+
+def check_real_forcing(ctx, V, G, tmp, num):
+    """Grid and Forcing built by the real constructors from a synthetic ROMS file: sub-grid offsets, the mask and dx as the
+    real Grid provides them, `ocean_distance` read from the configuration or left at its default (10 km)"""
+    import netCDF4
+    use_default = ctx.rng.random() < 0.35
+    if use_default:
+        # the default (10 km) is 2..7 cells on the cell sizes used below: mostly open water with a few islands / a headland,
+        # so that an open ocean exists
+        land = np.zeros((ctx.rng.randrange(9, 15), ctx.rng.randrange(9, 15)), dtype=int)
+        for _ in range(ctx.rng.randrange(1, 4)):
+            land[ctx.rng.randrange(land.shape[0]), ctx.rng.randrange(land.shape[1])] = 1
+        if ctx.rng.random() < 0.5:
+            land[0, : ctx.rng.randrange(1, 4)] = 1
+    else:
+        land = gen_mask(ctx.rng)
+    r, c = land.shape
+    default_sub = ctx.rng.random() < 0.35
+    pl, pr, pt, pb = (1, 1, 1, 1) if default_sub else [ctx.rng.choice([1, 2, 3]) for _ in range(4)]
+    ny, nx = r + pt + pb, c + pl + pr
+    rho = np.array([[ctx.rng.choice([0.0, 1.0]) for _ in range(nx)] for _ in range(ny)])
+    rho[pt:pt + r, pl:pl + c] = 1 - land
+    path = os.path.join(tmp, "vps%d.nc" % num)
+    romsfile.write_roms(path, ctx.rng, nx=nx, ny=ny, N=3, fields=(), mask=rho)
+    dx00 = ctx.rng.choice([1500.0, 2200.0, 3000.0, 5000.0]) if use_default else ctx.rng.choice([160.0, 800.0, 4000.0])
+    R = np.random.RandomState(ctx.sub_seed())
+    dxf = dx00 * R.uniform(0.5, 1.5, (ny, nx)); dxf[pt, pl] = dx00
+    with netCDF4.Dataset(path, "r+") as ds:
+        ds.variables["pm"][:] = 1.0 / dxf
+    gf = dict(input_file=path)
+    if not default_sub:
+        gf["subgrid"] = [pl, nx - pr, pt, ny - pb]
+    elif ctx.rng.random() < 0.5:
+        gf["subgrid"] = [None, None, None, None]
+    conf = dict(gridforce=gf, start_time=np.datetime64("2015-09-07T01:00:00"), stop_time=np.datetime64("2015-09-07T02:00:00"), dt=600, ibm_forcing=[])
+    if use_default:
+        d = None; km = 10
+    else:
+        d = ctx.rng.choice([0, 1, 2, 2, 3, 4])
+        delta = ctx.rng.choice([-0.45, -0.2, 0.0, 0.3, 0.45] if d >= 1 else [0.0, 0.2, 0.45])
+        km = (d + delta) * dx00 / 1000
+        gf["ocean_distance"] = km
+    grid = G.Grid(conf)
+    F = G.Forcing(conf, grid)
+    g = F._grid
+    if not (np.array_equal(np.asarray(g.M), 1 - land) and g.i0 == pl and g.j0 == pt):
+        raise RuntimeError("harness error: the real Grid does not hold the intended mask / offsets")
+    d = nearest_cells(km, float(g.dx[0, 0]))
+    cs = dict(land=land.tolist(), ocean_dist=d, i0=pl, j0=pt, real_grid=True, subgrid=gf.get("subgrid", "absent"),
+              ocean_distance_km=(km if not use_default else "absent (default)"), dx00=float(g.dx[0, 0]))
+    ctx.case(key=("real", land.tobytes(), land.shape, d, pl, pt), nontrivial=bool(land.any() and not land.all()))
+    if d is None:
+        return
+    fi = V.fjord_index(land, d)
+    u, v = V.descent(fi)
+    YY, XX = np.meshgrid(np.arange(r, dtype=float), np.arange(c, dtype=float), indexing="ij")
+    fu, fv = F.fish_velocity(XX.ravel() + pl, YY.ravel() + pt)
+    fu_raw = np.array(fu, dtype=float).reshape(r, c); fv_raw = np.array(fv, dtype=float).reshape(r, c)
+    ok = np.array_equal(fu_raw, np.asarray(u) * F.fish_swim_speed) and np.array_equal(fv_raw, np.asarray(v) * F.fish_swim_speed)
+    ctx.oracle(ok, "C12.real_forcing.field_differs", SITE_INIT if use_default else SITE_CELLS,
+               "Forcing built from the configuration (ocean_distance %s, dx[0,0]=%r m => %d cells): the served field is not the one of that ocean distance"
+               % ("absent, default 10 km" if use_default else "%r km" % km, float(g.dx[0, 0]), d), dict(cs, u=fu_raw.tolist(), v=fv_raw.tolist()))
+    check_ocean_region(ctx, fi, land, d, cs)
+    judge_cells(ctx, fi, np.sign(fu_raw).astype(int), np.sign(fv_raw).astype(int), cs)
+    served_checks(ctx, V, F, land, fi, u, v, fu_raw, fv_raw, pl, pt, cs, True)
+    ctx.branch("real_constructors"); ctx.branch("real_default_ocean_distance" if use_default else "real_configured_ocean_distance")
+    ctx.branch("real_subgrid" if not default_sub else "real_whole_grid")
 
 
 def run(ctx):
@@ -154,19 +481,36 @@ def run(ctx):
     for bits in range(0, 2 ** 12, step):
         land = np.array([(bits >> k) & 1 for k in range(12)]).reshape(3, 4)
         for d in dists:
-            check_mask(ctx, drv, pend, V, G, land, d)
+            check_mask(ctx, drv, pend, V, G, land, d, deep=(bits % 5 == 0))
             ctx.branch("exhaustive_3x4")
     for c in range(ctx.n(150, 3000)):
         land = gen_mask(ctx.rng)
         d = ctx.rng.choice([1, 2, 3, 4])
-        check_mask(ctx, drv, pend, V, G, land, d)
+        check_mask(ctx, drv, pend, V, G, land, d, deep=(c % 2 == 0))
         ctx.branch("random"); ctx.size("rows", land.shape[0])
     for c in range(ctx.n(40, 600)):
         d = ctx.rng.choice([1, 2, 3])
         land = gen_maze(ctx.rng, d)
-        check_mask(ctx, drv, pend, V, G, land, d)
+        check_mask(ctx, drv, pend, V, G, land, d, deep=(c % 2 == 0))
         ctx.branch("maze"); ctx.size("rows", land.shape[0])
         ctx.size("max_index_over_rows_plus_cols", int(bfs_reference(land, d).max() > sum(land.shape)))
+    # ocean distance 0 (an ocean_distance below half a cell): every sea cell is farther than 0 cells from land
+    for c in range(ctx.n(25, 300)):
+        land = gen_mask(ctx.rng) if c % 3 else np.array([(ctx.rng.randrange(2 ** 12) >> k) & 1 for k in range(12)]).reshape(3, 4)
+        check_mask(ctx, drv, pend, V, G, land, 0, deep=(c % 2 == 0))
+        ctx.branch("ocean_dist_0")
+    # one-cell-thin grids
+    for c in range(ctx.n(25, 300)):
+        land = gen_thin(ctx.rng)
+        check_mask(ctx, drv, pend, V, G, land, ctx.rng.choice([0, 1, 2, 2, 3]), deep=True)
+        ctx.branch("thin"); ctx.size("thin_shape", "%dx%d" % land.shape)
+    # Grid / Forcing built by the real constructors
+    tmp = tempfile.mkdtemp(prefix="verif_c12_")
+    try:
+        for c in range(ctx.n(12, 100)):
+            check_real_forcing(ctx, V, G, tmp, c)
+    finally:
+        shutil.rmtree(tmp, ignore_errors=True)
     if drv.available:
         rep = drv.run()
         UO = {0: 0, 1: -1, 2: 1, 3: 0, 4: 0}; VO = {0: 0, 1: 0, 2: 0, 3: -1, 4: 1}
